@@ -19,7 +19,9 @@ _TXT = st.one_of(_WORD, _WORD, st.tuples(_WORD, _WORD).map(" ".join),
                  st.tuples(_WORD, _WORD).map(lambda t: "%s,%s" % t),
                  _WORD.map(lambda w: 'say "%s"' % w), _WORD.map(lambda w: "[%s]" % w),
                  _WORD.map(lambda w: "%s's" % w), _WORD.map(lambda w: "ä" + w),
-                 _WORD.map(lambda w: "<%s&>" % w))
+                 _WORD.map(lambda w: "<%s&>" % w),
+                 # inner whitespace belongs to the value (only the surrounding one is trimmed)
+                 st.tuples(_WORD, st.sampled_from(["  ", "\t", " \t ", "\n", "   "]), _WORD).map("".join))
 _NAME = st.one_of(st.sampled_from(["a", "a", "a", "a-2", "a-2", "a-3", "b", "b-2", "c"]),
                   st.sampled_from(["a", "a", "a-2"]), _WORD)
 
